@@ -109,8 +109,16 @@ def worker(spec):
                     if len(ns["children"]) >= 0:
                         return
 
+        seen_nodes = {}
+
         def nursery_contexts(stack):
             out = []
+
+            def visit(node):
+                # the result must be a tree: no Context / Stack object may be reachable twice
+                if id(node) in seen_nodes and seen_nodes[id(node)] is node:
+                    raise NotATree(type(node).__name__)
+                seen_nodes[id(node)] = node
 
             def walk_stack(st):
                 for fr in st.frames:
@@ -118,6 +126,7 @@ def worker(spec):
                         walk_ctx(c)
 
             def walk_ctx(c):
+                visit(c)
                 if isinstance(c.obj, trio.Nursery):
                     out.append(c)
                 if c.inner_stack:
@@ -130,6 +139,9 @@ def worker(spec):
             return out
 
         bad = []
+
+        class NotATree(Exception):
+            pass
 
         def compare(task, stack, path, recurse):
             res.count("tasks_compared")
@@ -177,14 +189,20 @@ def worker(spec):
                         st = stackscope.extract(root, recurse_child_tasks=recurse)
                     if w:
                         bad.append(("warning", str(w[0].message)[:160]))
-                    compare(root, st, ("ROOT",), recurse)
-                    if recurse:
-                        def walk(st_):
-                            res.count("tasks_blocked_in_aexit", count_blocked_in_aexit(st_))
-                            for c in nursery_contexts(st_):
-                                for ch in c.children:
-                                    walk(ch)
-                        walk(st)
+                    seen_nodes.clear()
+                    try:
+                        compare(root, st, ("ROOT",), recurse)
+                        if recurse:
+                            def walk(st_):
+                                res.count("tasks_blocked_in_aexit", count_blocked_in_aexit(st_))
+                                seen_nodes.clear()
+                                for c in nursery_contexts(st_):
+                                    for ch in c.children:
+                                        walk(ch)
+                            walk(st)
+                    except (NotATree, RecursionError) as ex:
+                        bad.append(("the extracted structure is not a tree: a %s object is shared between two places "
+                                    "(or the nesting is cyclic)" % (ex.args[0] if ex.args else "node"),))
                 top.cancel_scope.cancel()
 
         def count_acm(spec_):
